@@ -80,7 +80,7 @@ type HTTPCase struct {
 // and no shared secret configured, a bearer token signed with the EMPTY key is accepted.
 // While this is true the generator never signs a token with an empty key when the configured
 // secret is empty (counted); the witness is replays/C20/HTTP-bearer-empty-shared-secret.json.
-const excludeEmptySecretBearer = true
+const excludeEmptySecretBearer = false // repaired in /repo (fix: commit 0022b29): generated again
 const exclEmptySecret = "http/bearer-token-signed-with-empty-key-while-shared-secret-is-empty"
 
 const ruleHTTP = "rapid: 1-3 users (admin or privilege table over {/,/api,/api/a,/api/a/b,/api/b,/api/write,/api/ping,/api/who,/api/preview...,/database} + per-database grants) and 0-2 subscription tokens " +
